@@ -3,6 +3,7 @@ package drive
 import (
 	"errors"
 	"fmt"
+	"strings"
 	"os"
 	"path/filepath"
 
@@ -479,6 +480,30 @@ func RunInvalid(c *core.Ctx) {
 				}
 			}
 		}
+	}
+	if c.Case%4 == 0 {
+		// a batch too large for one badger transaction whose LAST document is a duplicate: the whole batch must vanish
+		add("Insert(16 x 900 KB, duplicate last)", func() error {
+			big := make([]*document.Document, 16)
+			for i := range big {
+				x := mkdoc(r.UUID())
+				x.Set("blob", strings.Repeat("x", 900<<10))
+				big[i] = x
+			}
+			big[15].Set("_id", big[0].ObjectId())
+			return db.Insert("t", big...)
+		})
+		add("UpdateFunc(adds 900 KB to every document, last one becomes invalid)", func() error {
+			last := ids[len(ids)-1]
+			return db.UpdateFunc(query.NewQuery("t"), func(doc *document.Document) *document.Document {
+				nd := doc.Copy()
+				nd.Set("blob", strings.Repeat("y", 900<<10))
+				if doc.ObjectId() == last {
+					nd.Set("_expiresAt", "x")
+				}
+				return nd
+			})
+		})
 	}
 	add("Update(map with bad _expiresAt)", func() error { return db.Update(query.NewQuery("t"), map[string]interface{}{"_expiresAt": "x", "a": int64(1)}) })
 	add("Update(map with bad _id)", func() error { return db.Update(query.NewQuery("t").Where(query.Field("u").GtEq(1)), map[string]interface{}{"_id": "x", "a": int64(1)}) })
